@@ -880,3 +880,106 @@ def has_exponential_ambiguity(pattern, flags=0):
         if diag and off:
             return True, {"positions": n, "state": diag[0][0], "other": off[0]}
     return False, {"positions": n}
+
+
+def polynomial_ambiguity(pattern, flags=0):
+    """Infinite degree of ambiguity (IDA, Weber & Seidl) on the position automaton: two different positions p, q and a
+    word v with p -v-> p, p -v-> q and q -v-> q.  A backtracking matcher that fails after x v^k tries every one of the k
+    places where the run can move from p to q: super-linear (at least quadratic) time.  Returns None, or a dict with a
+    witness (prefix, pump, the two positions)."""
+    tree = sp.parse(pattern, int(flags))
+    g = _Glushkov(list(tree))
+    n = len(g.masks)
+    follow = [sorted(f) for f in g.follow]
+    # reachability between positions
+    reach = []
+    for p in range(n):
+        seen = set()
+        work = list(follow[p])
+        while work:
+            x = work.pop()
+            if x in seen:
+                continue
+            seen.add(x)
+            work.extend(follow[x])
+        reach.append(seen)
+    cyc = [p for p in range(n) if p in reach[p]]
+    for p in cyc:
+        for q in cyc:
+            if p == q or q not in reach[p]:
+                continue
+            # BFS over triples from (p, p, q) to (p, q, q); first component stays in p's loop, third in q's loop
+            okA = {x for x in range(n) if (x == p or (x in reach[p] and p in reach[x]))}
+            okC = {x for x in range(n) if (x == q or (x in reach[q] and q in reach[x]))}
+            okB = {x for x in range(n) if (x == p or x in reach[p]) and (x == q or q in reach[x])}
+            start = (p, p, q)
+            goal = (p, q, q)
+            prev = {start: None}
+            work = [start]
+            found = False
+            while work and not found:
+                nxt = []
+                for (a, b, c) in work:
+                    for a2 in follow[a]:
+                        if a2 not in okA:
+                            continue
+                        ma = g.masks[a2]
+                        for b2 in follow[b]:
+                            if b2 not in okB:
+                                continue
+                            mab = ma & g.masks[b2]
+                            if not mab:
+                                continue
+                            for c2 in follow[c]:
+                                if c2 not in okC:
+                                    continue
+                                m = mab & g.masks[c2]
+                                if not m:
+                                    continue
+                                t = (a2, b2, c2)
+                                if t in prev:
+                                    continue
+                                prev[t] = ((a, b, c), m)
+                                if t == goal:
+                                    found = True
+                                    break
+                                nxt.append(t)
+                            if found:
+                                break
+                        if found:
+                            break
+                    if found:
+                        break
+                work = nxt
+            if not found:
+                continue
+            pump = []
+            t = goal
+            while prev[t] is not None:
+                t0, m = prev[t]
+                pump.append(_pick(m))
+                t = t0
+            pump.reverse()
+            # a prefix that reaches p from the start
+            prevp = {}
+            work = [(x, None) for x in sorted(g.first)]
+            for x, _ in work:
+                prevp[x] = None
+            i = 0
+            order = [x for x, _ in work]
+            while i < len(order) and p not in prevp:
+                x = order[i]
+                i += 1
+                for y in follow[x]:
+                    if y not in prevp:
+                        prevp[y] = x
+                        order.append(y)
+            prefix = []
+            if p in prevp:
+                x = p
+                while x is not None:
+                    prefix.append(_pick(g.masks[x]))
+                    x = prevp[x]
+                prefix.reverse()
+            return {"positions": n, "p": p, "q": q, "prefix": bytes(prefix), "pump": bytes(pump)}
+    return None
